@@ -29,7 +29,11 @@ def signature(op, msg):
     """Stable identification of an internal fault: the instruction and the kind of operand it choked on."""
     m = re.search(r"(unexpected int type \S+|unexpected float type \S+|unexpected type for string \S+|Unexpected type to \w+|"
                   r"Failed to pop a timestamp|Invalid re index|panic in thread|cannot compare \S+|illegal instruction|Unexpected value on stack|PANIC escaped)", msg)
-    return "%s: %s" % (op, m.group(1) if m else msg[:60])
+    what = m.group(1) if m else msg[:60]
+    if what in ("panic in thread", "PANIC escaped"):
+        k = re.search(r"(is not an? \w+|index out of range|nil pointer dereference|interface conversion|invalid memory address|Invalid instruction)", msg)
+        what += ": " + (k.group(1) if k else "other")
+    return "%s: %s" % (op, what)
 
 
 def vm_cfg(mode, progfile, deadlock):
